@@ -358,4 +358,49 @@ theorem fetch_tr {P} (hP : Wf P) (s : State) (q : Nat) (hI : Inv P s) : Tr s (fe
 theorem fetch_ext {P} (hP : Wf P) (s : State) (q : Nat) (hI : Inv P s) : Ext s (fetch P s q).1 (q + 1) :=
   ((eng_ok hP (q + 1)).1.ok s q (Nat.lt_succ_self q) hI).2.1
 
+/-! ### footprints -/
+
+/-- `p` is reachable from `q` through the reads of the stored memos (all reads of the last
+    executions, including unrecorded NEVER_CHANGE reads). -/
+inductive Reach (s : State) (q : Nat) : Nat → Prop
+  | refl : Reach s q q
+  | step {p p' : Nat} {m : Memo} {o : Obs} : Reach s q p → s.memos p = some m → o ∈ m.obs →
+      o.dep = .qry p' → Reach s q p'
+
+/-- input `i` is in the footprint of `q`: read by `q` or transitively by one of its dependencies -/
+def InFootprint (s : State) (q i : Nat) : Prop :=
+  ∃ p m o, Reach s q p ∧ s.memos p = some m ∧ o ∈ m.obs ∧ o.dep = .inp i
+
+/-- decidable test: the list `ps` is closed under the query reads of its memos -/
+def closedUnder (s : State) (ps : List Nat) : Bool :=
+  ps.all fun p => match s.memos p with
+    | none => true
+    | some m => m.obs.all fun o => match o.dep with
+      | .qry p' => ps.contains p'
+      | .inp _ => true
+
+/-- decidable test: no memo of a query in `ps` read input `i` -/
+def noInputRead (s : State) (ps : List Nat) (i : Nat) : Bool :=
+  ps.all fun p => match s.memos p with
+    | none => true
+    | some m => m.obs.all fun o => o.dep != .inp i
+
+theorem not_inFootprint_of_check (s : State) (q i : Nat) (ps : List Nat) (hq : q ∈ ps)
+    (hc : closedUnder s ps = true) (hn : noInputRead s ps i = true) : ¬ InFootprint s q i := by
+  have hreach : ∀ p, Reach s q p → p ∈ ps := by
+    intro p hr
+    induction hr with
+    | refl => exact hq
+    | step _ hm ho hd ih =>
+      have := List.all_eq_true.mp hc _ ih
+      simp only [hm] at this
+      have := List.all_eq_true.mp this _ ho
+      simp only [hd] at this
+      simpa using this
+  rintro ⟨p, m, o, hr, hm, ho, hd⟩
+  have := List.all_eq_true.mp hn _ (hreach p hr)
+  simp only [hm] at this
+  have := List.all_eq_true.mp this _ ho
+  simp [hd] at this
+
 end SalsaVerif.Proofs.Core
